@@ -263,3 +263,14 @@ def build(sess):
     sess.explanation = ('move_dist_t3 and rate_t3 are executed symbolically from the real source and proved equal to the closed '
                         'forms of the third-order recurrence (lemmas L2-L4 by induction); the clear rule is compared on every path; '
                         'the zero-jerk clause is an identity between the C02 and C01 spec functions.')
+
+
+def fallback(sess):
+    out = []
+    for fn in ('move_dist_t3', 'rate_t3'):
+        for dps in (15, 5):
+            r = native('n_c02', 'search', {'fn': fn, 'dps': dps, 'n': 6000})
+            r['what'] = f'n_c02.search[{fn},dps={dps}]'
+            r.setdefault('tried', 6000)
+            out.append(r)
+    return out
